@@ -40,6 +40,7 @@ import numpy as np
 from lib import floatq as fq
 from lib import impl
 from props.c01 import offset, cluster, scale_of, to_int, thr2, chord, d2, near_tie
+from props import c13_extents as cx
 
 ALLOWED_AXIOMS = []
 TRUSTED = ["rotation matrices are applied by the harness in float64; near ties are filtered with exact integer chords of the implementation's unit vectors"]
@@ -286,6 +287,22 @@ def count_rows(res):
     return rows
 
 
+# the tables that are sums over the pairs of one catalog with ANOTHER one: additive when that catalog is split
+ADDITIVE = {"unk": (("cross", "dd"), ("cross", "rd")), "ref": (("cross", "dd"), ("auto", "dr")), "rand": (("cross", "rd"), ("auto", "dr"))}
+
+
+def totals(res, nbins):
+    """per table and redshift bin the counts summed over all patch pairs"""
+    out = []
+    for key, tabs in (("cross", ("dd", "rd")), ("auto", ("dd", "dr", "rr"))):
+        for cf in res[key]:
+            for tab in tabs:
+                nc = getattr(cf, tab)
+                if nc is not None:
+                    out.extend(float(np.sum(nc.counts.counts[b])) for b in range(nbins))
+    return out
+
+
 def observe(res, perm=None):
     return dict(counts=flat_counts(res["cross"] + res["auto"]),
                 samp=flat_sampled(res["cross"] + res["auto"], perm),
@@ -347,27 +364,67 @@ def run(ctx):
                  "the transformed twin of an accepted measurement raises %s: %s" % (type(exc).__name__, str(exc)[:200]),
                  meta, case=cid)
 
-    for sc in range(ctx.n(14, 80)):
-        npatch = rng.choice([3, 4])
+    n_std, n_ext = ctx.n(14, 80), ctx.n(4, 24)
+    for sc in range(n_std + n_ext):
+        ext = sc >= n_std       # catalogs with their own extent per patch (props/c13_extents.py), after all the others
+        npatch = rng.choice([3, 4]) if not ext else None
         unit = rng.choice(["arcmin", "kpc"])
         rmax = 40.0 if unit == "arcmin" else 12000.0
         cfg = yaw.Configuration.create(rmin=rmax / 8, rmax=rmax, unit=unit, edges=edges, max_workers=1)
-        cents = [offset(40.0, 10.0, k * 0.9, (k % 2) * 0.5) for k in range(npatch)]
-        # the weights of a catalog need not be of order one: every third scenario starts from catalogs whose
-        # weights carry a power of two each (exact, so every comparison stays as sharp as before)
-        if sc % 3 == 1:
-            bexp = {c: rng.choice([-40, -27, -20, 0, 20, 40]) for c in ("ref", "unk", "rand")}
-        else:
-            bexp = {"ref": 0, "unk": 0, "rand": 0}
-        ctx.bump("base_weights:%s" % ("order-one" if not any(bexp.values()) else "far-from-one"))
+        owners, layout_meta = None, None
+        if not ext:
+            cents = [offset(40.0, 10.0, k * 0.9, (k % 2) * 0.5) for k in range(npatch)]
+            # the weights of a catalog need not be of order one: every third scenario starts from catalogs whose
+            # weights carry a power of two each (exact, so every comparison stays as sharp as before)
+            if sc % 3 == 1:
+                bexp = {c: rng.choice([-40, -27, -20, 0, 20, 40]) for c in ("ref", "unk", "rand")}
+            else:
+                bexp = {"ref": 0, "unk": 0, "rand": 0}
+            ctx.bump("base_weights:%s" % ("order-one" if not any(bexp.values()) else "far-from-one"))
 
-        def sample(n, with_z, e):
-            pts = [p for k in range(npatch) for p in cluster(rng, cents[k][0], cents[k][1], n, 0.4)]
-            w = [rng.randrange(1, 9) / 2.0 * 2.0 ** e for _ in pts]
-            z = [rng.choice(zs) for _ in pts] if with_z else None
-            return pts, w, z
-        base = dict(cents=cents, ref=sample(7, True, bexp["ref"]), unk=sample(6, False, bexp["unk"])[:2],
-                    rand=sample(7, True, bexp["rand"]))
+            def sample(n, with_z, e):
+                pts = [p for k in range(npatch) for p in cluster(rng, cents[k][0], cents[k][1], n, 0.4)]
+                w = [rng.randrange(1, 9) / 2.0 * 2.0 ** e for _ in pts]
+                z = [rng.choice(zs) for _ in pts] if with_z else None
+                return pts, w, z
+            base = dict(cents=cents, ref=sample(7, True, bexp["ref"]), unk=sample(6, False, bexp["unk"])[:2],
+                        rand=sample(7, True, bexp["rand"]))
+        else:
+            # p = the largest counted angle [deg]: the upper scale limit at the centre of the first redshift bin
+            p_deg = max(float(np.rad2deg(np.max(cfg.scales.scales.get_angle_radian((a + b) / 2, cosmology=cfg.cosmology)[1])))
+                        for a, b in zip(edges[:-1], edges[1:]))
+            bexp = {"ref": 0, "unk": 0, "rand": 0}
+            for attempt in range(20):
+                lay = cx.layout(rng, p_deg)
+                drawn = {c: cx.points(rng, lay, p_deg, c) for c in cx.CATS}
+                hist, special = cx.classify(lay, drawn, p_deg)
+                if special:
+                    break
+            else:
+                ctx.bump("extent:no_patch_pair_beyond_the_largest_catalog_found")
+            npatch, cents = lay["npatch"], lay["cents"]
+            owners = {c: drawn[c][1] for c in cx.CATS}
+
+            def cols(c, with_z):
+                pts, own = drawn[c]
+                w = [rng.randrange(1, 9) / 2.0 for _ in pts]
+                # the first two objects of a patch sit near the tips of its strip: first redshift bin, where p is counted
+                z = [rng.choice(zs[:2]) if (i < 2 or own[i - 2] != own[i]) else rng.choice(zs) for i in range(len(pts))] if with_z else None
+                return pts, w, z
+            base = dict(cents=cents, ref=cols("ref", True), unk=cols("unk", False)[:2], rand=cols("rand", True))
+            layout_meta = dict(cx.describe(lay), largest_counted_angle_deg=float(p_deg).hex(),
+                               patch_pairs_beyond_the_largest_catalog=[list(x) for x in special[:8]])
+            for lk, h in hist.items():
+                for kk, v in h.items():
+                    ctx.bump("extent:%s:patch_pairs_holding_pairs:%s" % (lk, kk), v)
+            ctx.bump("extent:largest=%s:sparse=%s" % tuple(next(c for c in cx.CATS if lay["role"][c] == r) for r in ("largest", "sparse")))
+            for c in cx.CATS:
+                if lay["role"][c] != "largest":
+                    big = next(b for b in cx.CATS if lay["role"][b] == "largest")
+                    wider = sum(1 for k in range(npatch) for sd in (0, 1) if lay["extent"][c][k][sd][1] > lay["extent"][big][k][sd][1])
+                    narrower = sum(1 for k in range(npatch) for sd in (0, 1) if lay["extent"][c][k][sd][1] < lay["extent"][big][k][sd][1])
+                    ctx.bump("extent:patch_sides_wider_than_largest", wider)
+                    ctx.bump("extent:patch_sides_narrower_than_largest", narrower)
         try:
             rb = measure(ctx, cfg, base, "b")
         except ValueError as e:
@@ -387,42 +444,56 @@ def run(ctx):
             ctx.bump("base_entries:%s:non-numbers" % name, len(ob[""][name]) - fin)
 
         # ---- the transformations of this scenario: (name, forced, parameters)
-        trs = [(t, False, None) for t in ("rot:random", "rot:to_pole", "rot:across_ra0", "shuffle", "centres")]
-        trs += [("weight:unk:%s" % lab, False, ("unk", k)) for lab, k in (("2", 2.0), ("0.25", 0.25), ("3", 3.0))]
-        far = [FAR[(2 * sc) % 8], FAR[(2 * sc + 1) % 8]] if ctx.quick() else FAR
-        for lab, k in far:
-            c = rng.choice(["ref", "unk", "rand"])
-            trs.append(("weight:%s:%s" % (c, lab), True, (c, k)))
-        for _ in range(ctx.n(1, 2)):
-            c = rng.choice(["ref", "unk", "rand"])
-            if rng.random() < 0.5:
-                e = rng.randint(-60, 60)
-                trs.append(("weight:%s:2^%d" % (c, e), True, (c, 2.0 ** e)))
-            else:
-                m, u = rng.choice([3.0, 0.7, 1.9, 5.5]), rng.randint(-12, 12)
-                trs.append(("weight:%s:%ge%d" % (c, m, u), True, (c, m * 10.0 ** u)))
-        trs.append(("split", False, None))
-        # the coordinate convention of the input: field x unit x RA range x catalogs x centres
-        def conv(field, unit, ra_range, which, centres):
-            if field == "base" and ra_range == "signed":
-                ra_range = "minus"          # RA about 40 deg: (-180, 180] is [0, 360) there
-            if unit == "deg" and ra_range == "canonical":
-                ra_range = "plus"           # degrees in [0, 360) is what every other twin is given
-            crange = None if not centres else ra_range if ra_range != "canonical" else "minus" if field == "base" else "signed"
-            name = "conv:%s:%s:%s:%s:%s" % (field, unit, ra_range, which, "centres-" + crange if centres else "centres-canonical")
-            return (name, True, dict(field=field, unit=unit, range=ra_range, which=which, crange=crange))
-        WHICH = ("all", "all", "ref", "unk", "rand")
-        cv = [conv("along_ra0", "rad", "signed", "all", sc % 2 == 1),       # what arctan2 gives for a field on the meridian
-              conv("pole", rng.choice(["deg", "rad"]), rng.choice(RA_RANGES[1:]), rng.choice(WHICH), rng.random() < 0.5),
-              conv("base", "rad", "canonical", rng.choice(WHICH), False)]   # the unit alone: stored values bit for bit
-        for _ in range(ctx.n(1, 4)):
-            cv.append(conv(rng.choice(["base", "across_ra0", "across_ra0", "along_ra0", "pole"]), rng.choice(["deg", "rad"]), rng.choice(RA_RANGES),
-                           rng.choice(WHICH), rng.random() < 0.5))
-        if not ctx.quick():
-            cv.append(conv("across_ra0", "deg", "signed", rng.choice(WHICH), sc % 2 == 0))
-            cv.append(conv("across_ra0", "rad", rng.choice(["minus", "mixed"]), rng.choice(WHICH[2:]), False))
-        seen = set()
-        trs += [c for c in cv if not (c[0] in seen or seen.add(c[0]))]
+        if not ext:
+            trs = [(t, False, None) for t in ("rot:random", "rot:to_pole", "rot:across_ra0", "shuffle", "centres")]
+            trs += [("weight:unk:%s" % lab, False, ("unk", k)) for lab, k in (("2", 2.0), ("0.25", 0.25), ("3", 3.0))]
+            far = [FAR[(2 * sc) % 8], FAR[(2 * sc + 1) % 8]] if ctx.quick() else FAR
+            for lab, k in far:
+                c = rng.choice(["ref", "unk", "rand"])
+                trs.append(("weight:%s:%s" % (c, lab), True, (c, k)))
+            for _ in range(ctx.n(1, 2)):
+                c = rng.choice(["ref", "unk", "rand"])
+                if rng.random() < 0.5:
+                    e = rng.randint(-60, 60)
+                    trs.append(("weight:%s:2^%d" % (c, e), True, (c, 2.0 ** e)))
+                else:
+                    m, u = rng.choice([3.0, 0.7, 1.9, 5.5]), rng.randint(-12, 12)
+                    trs.append(("weight:%s:%ge%d" % (c, m, u), True, (c, m * 10.0 ** u)))
+            trs.append(("split", False, None))
+            # the coordinate convention of the input: field x unit x RA range x catalogs x centres
+            def conv(field, unit, ra_range, which, centres):
+                if field == "base" and ra_range == "signed":
+                    ra_range = "minus"          # RA about 40 deg: (-180, 180] is [0, 360) there
+                if unit == "deg" and ra_range == "canonical":
+                    ra_range = "plus"           # degrees in [0, 360) is what every other twin is given
+                crange = None if not centres else ra_range if ra_range != "canonical" else "minus" if field == "base" else "signed"
+                name = "conv:%s:%s:%s:%s:%s" % (field, unit, ra_range, which, "centres-" + crange if centres else "centres-canonical")
+                return (name, True, dict(field=field, unit=unit, range=ra_range, which=which, crange=crange))
+            WHICH = ("all", "all", "ref", "unk", "rand")
+            cv = [conv("along_ra0", "rad", "signed", "all", sc % 2 == 1),       # what arctan2 gives for a field on the meridian
+                  conv("pole", rng.choice(["deg", "rad"]), rng.choice(RA_RANGES[1:]), rng.choice(WHICH), rng.random() < 0.5),
+                  conv("base", "rad", "canonical", rng.choice(WHICH), False)]   # the unit alone: stored values bit for bit
+            for _ in range(ctx.n(1, 4)):
+                cv.append(conv(rng.choice(["base", "across_ra0", "across_ra0", "along_ra0", "pole"]), rng.choice(["deg", "rad"]), rng.choice(RA_RANGES),
+                               rng.choice(WHICH), rng.random() < 0.5))
+            if not ctx.quick():
+                cv.append(conv("across_ra0", "deg", "signed", rng.choice(WHICH), sc % 2 == 0))
+                cv.append(conv("across_ra0", "rad", rng.choice(["minus", "mixed"]), rng.choice(WHICH[2:]), False))
+            seen = set()
+            trs += [c for c in cv if not (c[0] in seen or seen.add(c[0]))]
+        else:
+            # catalogs with extents of their own: the usual rotation and row shuffle, the relabelling twice (the reversed centre
+            # list swaps the order of every patch pair; a drawn permutation), and splits of ANY of the three catalogs - of the
+            # largest one into uneven parts (another catalog becomes the largest: the geometry is taken from elsewhere), of
+            # another one evenly; thorough tier: every catalog, even and uneven
+            big = max(cx.CATS, key=lambda c: len(base[c][0]))
+            trs = [("rot:random", False, None), ("shuffle", False, None), ("centres:reverse", True, "reverse"), ("centres:random", True, "random")]
+            f_big = rng.choice([0.15, 0.3, 0.85])
+            other = rng.choice([c for c in cx.CATS if c != big])
+            splits = [(big, f_big), (other, 0.5)]
+            if not ctx.quick():
+                splits += [(c, f) for c in cx.CATS for f in (0.15, 0.5, 0.85) if (c, f) not in splits]
+            trs += [("split:%s:%g" % (c, f), True, (c, f)) for c, f in splits]
 
         for tr, forced, par in trs:
             if ctx.quick() and not forced and rng.random() < 0.35:
@@ -433,6 +504,8 @@ def run(ctx):
             perm = None
             exact = True
             meta0 = dict(scenario=sc, transform=tr, unit=unit, npatch=npatch, base_weight_exponents=bexp)
+            if ext:
+                meta0["catalog_extents"] = layout_meta
             try:
                 if kind == "rot":
                     R = rot_matrix(rng, tr.split(":")[1])
@@ -443,8 +516,10 @@ def run(ctx):
                         idx = list(range(len(tup[0]))); rng.shuffle(idx)
                         return tuple(None if col is None else [col[i] for i in idx] for col in tup)
                     t = dict(cents=cents, ref=sh(base["ref"]), unk=sh(base["unk"]), rand=sh(base["rand"]))
-                elif tr == "centres":
+                elif kind == "centres":
                     p = list(range(npatch))
+                    if par == "reverse":
+                        p.reverse()
                     while p == list(range(npatch)):
                         rng.shuffle(p)
                     t = dict(base, cents=[cents[i] for i in p])   # new patch j is old patch p[j]
@@ -475,31 +550,45 @@ def run(ctx):
                     meta0.update(field=par["field"], field_rotation=rpar, unit=par["unit"], ra_range=par["range"], catalogs=par["which"],
                                  centres_ra_range=par["crange"] or "canonical", rows_with_negative_ra=negative,
                                  rows_with_ra_outside_one_period=outside)
-                if tr == "split":
-                    n = len(base["unk"][0]); mask = [rng.random() < 0.5 for _ in range(n)]
+                if kind == "split":
+                    which, frac = par if par else ("unk", None)
+                    n = len(base[which][0])
+                    if frac is None:
+                        mask = [rng.random() < 0.5 for _ in range(n)]
+                    else:
+                        mask = cx.split_mask(rng, owners[which], frac)   # both parts keep every patch populated
+                        if mask is None:
+                            ctx.bump("split_skipped:patch_with_one_object"); continue
+                        meta0.update(split_catalog=which, rows_of_parts=[sum(mask), n - sum(mask)],
+                                     rows_of_catalogs={c: len(base[c][0]) for c in cx.CATS})
                     parts = []
                     ok = True
                     for flag in (True, False):
-                        sub = ([p for p, m in zip(base["unk"][0], mask) if m == flag], [w for w, m in zip(base["unk"][1], mask) if m == flag])
+                        sub = tuple(None if col is None else [x for x, m in zip(col, mask) if m == flag] for col in base[which])
                         if not sub[0]:
                             ok = False; break
-                        parts.append(measure(ctx, cfg, dict(base, unk=sub), "s%d" % flag))
+                        parts.append(measure(ctx, cfg, dict(base, **{which: sub}), "s%d" % flag))
                     if not ok:
                         for pr in parts: cleanup(pr)
                         continue
+                    # the tables that are sums over the pairs of the split catalog with another one
+                    tables = ADDITIVE[which] if par else (("cross", "dd"),)
+                    def table(res):
+                        return [float(x) for key, tab in tables for cf in res[key] for x in getattr(cf, tab).counts.counts.ravel()]
                     for route, suffix in ROUTES:
                         rcid = cid + ((route,) if route else ())
                         try:
                             ps = parts if not route else [through_files(ctx, pr, "s%d" % i) for i, pr in enumerate(parts)]
                         except Exception as e:   # the whole was written and read back, a part of it is not
                             refused("split", rcid, dict(meta0, route=route or "memory"), route, e); continue
-                        whole = [float(x) for cf in runs_b[route]["cross"] for x in cf.dd.counts.counts.ravel()]
-                        p1 = [float(x) for cf in ps[0]["cross"] for x in cf.dd.counts.counts.ravel()]
-                        p2 = [float(x) for cf in ps[1]["cross"] for x in cf.dd.counts.counts.ravel()]
-                        add("c13_additive_case %s %s %s" % (fq.qlist(whole), fq.qlist(p1), fq.qlist(p2)), rcid,
-                            dict(meta0, route=route or "memory"), "c13-counts-not-additive" + suffix,
+                        add("c13_additive_case %s %s %s" % (fq.qlist(table(runs_b[route])), fq.qlist(table(ps[0])), fq.qlist(table(ps[1]))), rcid,
+                            dict(meta0, route=route or "memory", tables=["%s.%s" % kt for kt in tables]),
+                            "c13-counts-not-additive" + ("" if which == "unk" else "-%s-split" % which) + suffix,
                             "counts of a catalog split into two disjoint catalogs do not add up to the unsplit counts")
-                    ctx.count(key=(sc, tr), nontrivial=nonzero, kind="split")
+                    ctx.count(key=(sc, tr), nontrivial=nonzero, kind="split" if not ext else "extent:split")
+                    if ext:
+                        sizes = sorted(((len(base[c][0]) if c != which else max(sum(mask), n - sum(mask))), c) for c in cx.CATS)
+                        ctx.bump("extent:split:largest_catalog_%s" % ("changes" if sizes[-1][1] != big else "stays"))
                     for pr in parts: cleanup(pr)
                     continue
                 if kind == "conv":
@@ -521,7 +610,7 @@ def run(ctx):
             vt = stored_vecs(rt) if kind == "conv" else None
             if kind in ("rot", "conv") and ties(rt, cfg, edges, vt):
                 ctx.bump("near_tie_skipped"); cleanup(rt); continue
-            ctx.count(key=(sc, tr), nontrivial=nonzero, kind=kind)
+            ctx.count(key=(sc, tr), nontrivial=nonzero, kind=kind if not ext else "extent:" + kind)
             if kind == "conv":
                 for lab in ("field=" + par["field"], "unit=" + par["unit"], "ra=" + par["range"], "catalogs=" + par["which"],
                             "centres=" + (par["crange"] or "canonical"), "negative_ra=" + ("some" if negative else "none")):
@@ -549,10 +638,10 @@ def run(ctx):
                     refused(kind, rcid, meta, route, e); continue
                 if route:
                     add("c13_store_case %s %s" % (fq.qmat(count_rows(rt)), fq.qmat(count_rows(rr))), rcid, meta, None, "twin")
-                if tr == "centres":
+                if kind == "centres":
                     # patches relabelled: totals, amplitudes and covariance equal; samples permute accordingly
-                    tb = [float(np.sum(nc.counts.counts[b_])) for cf in runs_b[route]["cross"] for nc in (cf.dd, cf.rd) for b_ in range(len(edges) - 1)]
-                    tt = [float(np.sum(nc.counts.counts[b_])) for cf in rr["cross"] for nc in (cf.dd, cf.rd) for b_ in range(len(edges) - 1)]
+                    # (totals of every table: an autocorrelation keeps a patch pair under (lower id, higher id), wherever that lands)
+                    tb, tt = totals(runs_b[route], len(edges) - 1), totals(rr, len(edges) - 1)
                     add("c13_case true %s %s" % (fq.qlist(tb), fq.qlist(tt)), rcid, meta, "c13-relabel-changes-counts" + suffix,
                         "relabelling patches changes the total pair counts")
                     add(cmp_term("scaled", b["samp"], o["samp"]), rcid, meta, "c13-relabel-changes-samples" + suffix,
@@ -575,6 +664,8 @@ def run(ctx):
                 if kind == "weight" and not exact and (pattern(b["samp"]) != pattern(o["samp"]) or pattern(b["nz"]) != pattern(o["nz"])):
                     ctx.bump("degenerate_sample_differs_after_inexact_factor")   # 0/0 in the base run, residual/0 or 0/residual in the twin
             ctx.sample(dict(scenario=sc, transform=tr, unit=unit, npatch=npatch, base_weight_exponents=bexp), limit=4)
+            if ext:
+                ctx.sample(dict(meta0), limit=6)
             cleanup(rt)
         cleanup(rb)
     ctx.log("%d distinct terms for %d comparisons" % (len(terms), len(cases)))
